@@ -364,10 +364,11 @@ class ParseTreeMap(Generic[ClassType1, ObjType1, ClassType2, ObjType2]):
         if not rule1.children:
             return ParseTreeMap._min_object(rule2)
 
-        assert isinstance(rule1, Rule) and isinstance(rule2, Rule)
+        assert isinstance(rule1, Rule)
         mapped_obj, idx = rule1.indexed_forward_map(obj)
 
         if rule2.is_equivalence():
+            assert isinstance(rule2, Rule)
             if not rule1.is_equivalence():
                 # Backward map the outcome of a recursion when
                 # we move one rule further in spec2 only.
@@ -386,6 +387,8 @@ class ParseTreeMap(Generic[ClassType1, ObjType1, ClassType2, ObjType2]):
             # If only domain's rule is eq-rule then we don't backward map for the
             # spec2's rule here but move along with the mapped object and next rule
             # and return the outcome directly.
+            # (rule2 can be an atom here: a class equivalent to an atom is matched
+            # with an atom, and the recursion ends when the atom of spec1 is reached)
             return self.map_rec(
                 mapped_obj[0], self.domain.rules_dict[rule1.children[0]], rule2
             )
@@ -393,6 +396,7 @@ class ParseTreeMap(Generic[ClassType1, ObjType1, ClassType2, ObjType2]):
             # Fetch the matching order to know what parts to recurse together.
             order = self.get_order[(rule1.comb_class, rule2.comb_class)]
 
+        assert isinstance(rule2, Rule)
         # Sort rule1's children to match those of rule 2
         _children = self._get_nonempty(rule1, mapped_obj)
         child_it: Iterator[
